@@ -105,3 +105,35 @@ Theorem C10_source_expiry_within_bounds : forall ftrunc c ctx now ttl inc r Jn J
   r.2 <> now /\ 2 * Jd * Z.abs (r.2 - (now + T)) <= Z.abs T * Jn + 2 * Jd * slack T.
 Proof. exact source_expiry_within_bounds. Qed.
 Print Assumptions C10_source_expiry_within_bounds.
+
+(* ---- IEEE-754: the assumption about the jitter term discharged (theories/JitterIEEE.v, Flocq) ----
+   With the float term of the source's formula evaluated in binary64 arithmetic (int64 -> float64 conversion, two
+   multiplications and the subtraction rounded to nearest even with gradual underflow, truncation toward zero), for EVERY
+   TTL T <> 0, every ExpirationJitter 0 < J <= 1 and every draw 0 <= r < 1: the jittered TTL never collapses to 0 and the
+   expiry instant lies within |T|*J/2 + |T|/2^50 of now + T (over the reals).  These two theorems depend on the axioms of
+   the classical real numbers of the Coq standard library (through Reals and Flocq), named in the trusted base. *)
+From Coq Require Import Reals.
+From Cache Require Import JitterIEEE.
+Open Scope Z_scope.
+
+Theorem C10_ieee_bounds : forall (c : bcfg) (ctx now : Z) (J r : R),
+  (0 < J <= 1)%R -> (0 <= r < 1)%R ->
+  let T := effective_ttl c ctx in
+  let jit := jitter_formula (ftrunc_ieee J r) T in
+  let E := write_expiry c ctx now jit in
+  ~ (ctx = 0 /\ eff_ttl c = unlimited) -> c_jitter c = true -> T <> 0 ->
+  E <> now /\ E = now + T + jit /\
+  (Rabs (IZR (E - (now + T))) <= Rabs (IZR T) * J / 2 + Rabs (IZR T) / 1125899906842624)%R.
+Proof. exact expiry_bounds_ieee. Qed.
+Print Assumptions C10_ieee_bounds.
+
+Theorem C10_source_expiry_ieee : forall (c : bcfg) (ctx now ttl inc : Z) (res : Z * Z) (J r : R),
+  (0 < J <= 1)%R -> (0 <= r < 1)%R ->
+  run_trait_ttl (ftrunc_ieee J r) c ctx = Some (ttl, inc) ->
+  run_expire_at ttl now = Some res ->
+  let T := effective_ttl c ctx in
+  ~ (ctx = 0 /\ eff_ttl c = unlimited) -> c_jitter c = true -> T <> 0 ->
+  res.2 <> now /\
+  (Rabs (IZR (res.2 - (now + T))) <= Rabs (IZR T) * J / 2 + Rabs (IZR T) / 1125899906842624)%R.
+Proof. exact source_expiry_ieee. Qed.
+Print Assumptions C10_source_expiry_ieee.
